@@ -16,6 +16,7 @@ CONSTANTS
   Concurrent = TRUE
   WithRejects = FALSE
   ExportOneIn = 20
+  RecoveryCrashes = FALSE
 INVARIANTS NoViolation CacheCounterExact ChunksAbut DurableIsPrefix Export 
 VIEW View
 ALIAS Alias
